@@ -14,6 +14,6 @@ CFG = {
             "non-trivial = output is a computed priority (not skip/error).",
     "translated": ["CandidateType.Preference", "relayProtocolPreference", "candidateBase.TypePreference",
                    "candidateBase.LocalPreference", "candidateBase.Priority", "CandidatePair.priority"],
-    "trusted_base": ["CRC-32 (foundation) is an uninterpreted function of the string type+address+network type"],
+    "trusted_base": ["CRC-32 is modelled by a bitwise Lean implementation validated against hash/crc32 by the correspondence; collisions are outside the claim, as the property says"],
     "assumptions": ["receiver fields read by the translated methods are passed as parameters (atoms in harness/gotolean/spec.json)"],
 }
